@@ -83,11 +83,17 @@ class Session:
                     self.target.fault_at = 1 + 3 * nck
                     # the interruption arrives as an ordinary exception or as a KeyboardInterrupt (Ctrl-C)
                     self.target.fault_exc = smcrun.FaultInterrupt if self.seed % 2 else smcrun.Fault
+                self.fault_fired = None
                 with al.orng_seed(self.seed):
                     try:
                         a.sample_posterior(**kw)
+                        if self.target.fault_at is not None:
+                            # the planted interruption never arrived (e.g. a run resumed from a FINAL checkpoint has no likelihood call
+                            # left): what happened in the environment is a completed run
+                            self.fault_fired = self.target.n_like > self.target.fault_at
                     except smcrun.FAULTS as e:
                         self.pending_exc = e
+                        self.fault_fired = True
                     finally:
                         self.target.fault_at = None
             elif k == "enter":
@@ -196,47 +202,66 @@ def canonical(ops):
 def check_sequences(chk, seqs):
     drv = core.LeanDriver()
     seqs = [canonical(ops) for ops in seqs]
-    reps = drv.batch(["f64 session " + " ".join([str(len(ops))] + [op_wire(o) for o in ops]) for ops in seqs])
-    for ops, rep in zip(seqs, reps):
-        if not rep.ok:
-            raise core.HarnessError(rep.err)
-        model = parse_model(rep, len(ops))
+    # 1. execute every sequence on a real Aspire, observing both files after every operation.  An `interrupted` SMC run whose planted
+    #    interruption never fired (no likelihood call left, e.g. after resuming from a final checkpoint) IS a completed run: the model
+    #    is told what happened in the environment (`effective` operations), never what the implementation made of it.
+    runs = []
+    for ops in seqs:
         tmp = tempfile.mkdtemp(prefix="aspire_verif_")
-        text = [op_wire(o) for o in ops]
-        case = {"ops": text}
-        chk.count(f"length:{len(ops)}")
         try:
-            sess = Session(tmp, seed=len(text) + 7)
-            nontriv = False
-            for j, op in enumerate(ops):
+            sess = Session(tmp, seed=len(ops) + 7)
+            eff, obs = [], []
+            for op in ops:
+                sess.fault_fired = None
                 raised = sess.do(op)
-                for p in (1, 2):
-                    ob = sess.observe(p)
-                    m = model[j]["files"][p - 1]
-                    if ob["ckpt"] is not None:
-                        nontriv = True
-                    got = {"flow": ob["flow"], "has_config": ob["has_config"], "cfg": "smc" if ob["cfg"] in ("smc", "minipcn_smc") else ob["cfg"],
-                           "ckpt": ob["ckpt"], "consistent": ob["consistent"]}
-                    stop = False
-                    if not ob["consistent"]:
-                        ck = ob["ckpt"]
-                        chk.fail("the stored proposal and configuration belong to the stored checkpoint", {**case, "after_op": j, "file": p},
-                                 f"after `{text[j]}` file {p}: proposal version {ob['flow']}, config sampler {ob['cfg']}, checkpoint {ck} ({ob['why']})",
-                                 {"clause": ob["why"], "model_predicts": (not m["consistent"]) and got == m, "last_op": text[j].split()[0],
-                                  "ckpt_older_than_flow": bool(ck and ob["flow"] is not None and ck[0] is not None and ck[0] < ob["flow"]),
-                                  "config_names_no_sampler": ob["cfg"] is None,
-                                  "config_other_sampler": ob["cfg"] not in (None, ck[1] if ck else None) and not (ob["cfg"] in ("smc", "minipcn_smc") and ck and ck[1] == "smc")})
-                        stop = True
-                    if got != m:
-                        chk.disagree("session", {**case, "after_op": j, "file": p}, m, got)
-                        stop = True
-                    if stop:
-                        raise StopIteration
-            chk.case(case if chk.evaluations < 8 else None, " ; ".join(text) if nontriv else None)
-        except StopIteration:
-            chk.case(None, " ; ".join(text))
+                # (an importance-kind operation is never interrupted by this harness, but a resumed instance may run it as SMC)
+                if op[0] == "sample" and not op[3] and not raised and sess.fault_fired is not True:
+                    op = ("sample", op[1], op[2], True, 0)
+                    chk.count("interruption_never_fired")
+                eff.append(op)
+                obs.append([sess.observe(p) for p in (1, 2)])
+            runs.append((eff, obs))
         finally:
             shutil.rmtree(tmp, ignore_errors=True)
+    reps = drv.batch(["f64 session " + " ".join([str(len(eff))] + [op_wire(o) for o in eff]) for eff, _ in runs])
+    for ops, (eff, obs), rep in zip(seqs, runs, reps):
+        if not rep.ok:
+            raise core.HarnessError(rep.err)
+        model = parse_model(rep, len(eff))
+        text = [op_wire(o) for o in eff]
+        case = {"ops": text}
+        if eff != ops:
+            case["planned_ops"] = [op_wire(o) for o in ops]
+        chk.count(f"length:{len(ops)}")
+        nontriv, stopped = False, False
+        for j in range(len(eff)):
+            for p in (1, 2):
+                ob = obs[j][p - 1]
+                m = model[j]["files"][p - 1]
+                if ob["ckpt"] is not None:
+                    nontriv = True
+                got = {"flow": ob["flow"], "has_config": ob["has_config"], "cfg": "smc" if ob["cfg"] in ("smc", "minipcn_smc") else ob["cfg"],
+                       "ckpt": ob["ckpt"], "consistent": ob["consistent"]}
+                if not ob["consistent"]:
+                    ck = ob["ckpt"]
+                    chk.fail("the stored proposal and configuration belong to the stored checkpoint", {**case, "after_op": j, "file": p},
+                             f"after `{text[j]}` file {p}: proposal version {ob['flow']}, config sampler {ob['cfg']}, checkpoint {ck} ({ob['why']})",
+                             {"clause": ob["why"], "model_predicts": (not m["consistent"]) and got == m, "last_op": text[j].split()[0],
+                              "ckpt_older_than_flow": bool(ck and ob["flow"] is not None and ck[0] is not None and ck[0] < ob["flow"]),
+                              "config_names_no_sampler": ob["cfg"] is None,
+                              "config_other_sampler": ob["cfg"] not in (None, ck[1] if ck else None) and not (ob["cfg"] in ("smc", "minipcn_smc") and ck and ck[1] == "smc")})
+                    stopped = True
+                if got != m:
+                    chk.disagree("session", {**case, "after_op": j, "file": p}, m, got)
+                    stopped = True
+                if stopped:
+                    break
+            if stopped:
+                break
+        if stopped:
+            chk.case(None, " ; ".join(text))
+        else:
+            chk.case(case if chk.evaluations < 8 else None, " ; ".join(text) if nontriv else None)
 
 
 # ----------------------------------------------------------------------------- sequences
